@@ -324,31 +324,30 @@ theorem mergeArgs_valid {ps : List Param} (hnd : (ps.map (·.name)).Nodup) {args
   exact (Dict.get?_eq_none_iff kw k).mp this hk1
 
 theorem mem_freeVars (args : List Arg) (seen : List Nat) (i : Nat) :
-    i ∈ freeVars args seen ↔ Arg.var i ∈ args ∧ i ∉ seen := by
+    i ∈ freeVars args seen ↔ args.any (Arg.mentions i) = true ∧ i ∉ seen := by
   induction args generalizing seen with
   | nil => simp [freeVars]
   | cons a r ih =>
     cases a with
-    | lit v => simp [freeVars, ih]
-    | var j =>
-      simp only [freeVars]
+    | lit v => simp [freeVars, ih, Arg.mentions]
+    | var j k =>
+      simp only [freeVars, List.any_cons, Arg.mentions, Bool.or_eq_true, beq_iff_eq]
       split
       · rename_i hj
         rw [ih]
-        simp only [List.mem_cons, Arg.var.injEq]
         constructor
         · rintro ⟨h1, h2⟩; exact ⟨Or.inr h1, h2⟩
         · rintro ⟨h1 | h1, h2⟩
           · subst h1; exact absurd hj h2
           · exact ⟨h1, h2⟩
       · rename_i hj
-        simp only [List.mem_cons, ih, Arg.var.injEq, not_or]
+        simp only [List.mem_cons, ih, not_or]
         constructor
         · rintro (h | ⟨h1, h2, h3⟩)
           · subst h; exact ⟨Or.inl rfl, hj⟩
           · exact ⟨Or.inr h1, h3⟩
         · rintro ⟨h1 | h1, h2⟩
-          · exact Or.inl h1
+          · exact Or.inl h1.symm
           · by_cases hij : i = j
             · exact Or.inl hij
             · exact Or.inr ⟨h1, hij, h2⟩
@@ -571,23 +570,32 @@ theorem pre_bound_iff {doms : Nat → List Nat} {pre : List Nat} {e : Env}
     · rw [assignsFrom_get_of_not_mem he hp] at hi
       simp [Env.empty] at hi
 
-/-- one evaluation of the condition from bindings `e`, all quirks off -/
+theorem zipWith_map_right {γ δ ε : Type} (f : γ → δ → ε) (g : γ → δ) (l : List γ) :
+    List.zipWith f l (l.map g) = l.map (fun a => f a (g a)) := by
+  induction l with
+  | nil => rfl
+  | cons a r ih => simp [ih]
+
+/-- one evaluation of the condition from bindings `e` in world `w`, all quirks off -/
 theorem evalSym_none (c : Call) (hwf : c.WF) {b : Dict Arg} (hb : bind c.params c.pos c.kw = .ok b)
-    (doms : Nat → List Nat) (e : Env) (seen : List Nat) (hs : ∀ i, i ∈ seen ↔ (e i).isSome)
+    (w : World) (doms : Nat → List Nat) (e : Env) (seen : List Nat) (hs : ∀ i, i ∈ seen ↔ (e i).isSome)
     (body : List Nat → Nat) (neg : Bool) (sel : List Nat) :
-    evalSym Quirks.none c.params (c.paramNames.zip c.pos ++ c.kw) doms e body neg sel =
+    evalSym Quirks.none w c.params (c.paramNames.zip c.pos ++ c.kw) doms e body neg sel =
       .ok (observe body neg (rowsOf doms sel)
         ((assignsFrom doms e (freeVars c.written seen)).map
-          (fun e' => (applyDefaults id c.params (b.mapVals (subst e')), e')))) := by
+          (fun e' => (applyDefaults id c.params (b.mapVals (substW w e')), e')))) := by
   simp only [evalSym, combos, Quirks.none, Bool.false_eq_true, if_false]
   rw [combosChained_eq doms _ e seen hs, List.map_map]
-  have hf : (invokeOne c.params (Dict.keys (c.paramNames.zip c.pos ++ c.kw)) ∘
+  have hf : (invokeOne w c.params (Dict.keys (c.paramNames.zip c.pos ++ c.kw))
+        (Dict.vals (c.paramNames.zip c.pos ++ c.kw)) ∘
       fun e' => ((Dict.vals (c.paramNames.zip c.pos ++ c.kw)).map (subst e'), e'))
-      = fun e' => .ok (applyDefaults id c.params (b.mapVals (subst e')), e') := by
+      = fun e' => .ok (applyDefaults id c.params (b.mapVals (substW w e')), e') := by
     funext e'
-    have := invokeKw_merged hwf.names_nodup hb (subst e')
+    have := invokeKw_merged hwf.names_nodup hb (substW w e')
     simp only [Call.paramNames] at this ⊢
-    simp only [Function.comp, invokeOne, this]
+    simp only [Function.comp, invokeOne, zipWith_map_right]
+    have hsw : (fun a => argValue w a (subst e' a)) = substW w e' := rfl
+    rw [hsw, this]
   rw [hf, sequence_map_ok, vals_merged c hb]
 
 theorem Env.set_same (e : Env) (i v : Nat) (h : e i = some v) : e.set i v = e := by
@@ -597,28 +605,31 @@ theorem Env.set_same (e : Env) (i v : Nat) (h : e i = some v) : e.set i v = e :=
   · subst_vars; exact h.symm
   · rfl
 
-theorem sharesUnbound_set (e : Env) (i v : Nat) (r : List Arg) (h : Arg.var i ∉ r) :
+theorem sharesUnbound_set (e : Env) (i v : Nat) (r : List Arg) (h : r.any (Arg.mentions i) = false) :
     sharesUnbound (fun j => ((e.set i v) j).isSome) r = sharesUnbound (fun j => (e j).isSome) r := by
   induction r with
   | nil => rfl
   | cons a r ih =>
-    simp only [List.mem_cons, not_or] at h
+    simp only [List.any_cons, Bool.or_eq_false_iff] at h
     cases a with
     | lit w => simpa [sharesUnbound] using ih h.2
-    | var j =>
-      have hji : j ≠ i := fun e => h.1 (by rw [e])
+    | var j k =>
+      have hji : j ≠ i := by simpa [Arg.mentions] using h.1
       have ih' := ih h.2
       simp only [Env.set] at ih'
       simp only [sharesUnbound, Env.set, hji, if_false, ih']
 
-theorem candidates_set (doms : Nat → List Nat) (e : Env) (i v : Nat) (r : List Arg) (h : Arg.var i ∉ r) :
+theorem candidates_set (doms : Nat → List Nat) (e : Env) (i v : Nat) (r : List Arg)
+    (h : r.any (Arg.mentions i) = false) :
     r.map (candidates doms (e.set i v)) = r.map (candidates doms e) := by
   apply List.map_congr_left
   intro a ha
   cases a with
   | lit w => rfl
-  | var j =>
-    have hji : j ≠ i := fun e => h (by rw [← e]; exact ha)
+  | var j k =>
+    have hji : j ≠ i := by
+      have := (List.any_eq_false.mp h) _ ha
+      simpa [Arg.mentions] using this
     simp [candidates, Env.set, hji]
 
 /-- where no unbound variable is written twice, evaluating the children independently and multiplying is the same
@@ -644,8 +655,7 @@ theorem combosIndependent_eq_chained (doms : Nat → List Nat) (args : List Arg)
         simp [combosIndependent, product, candidates, hv, bindEnv, List.map_map, Function.comp_def,
           Env.set_same e i v hv]
       | none =>
-        simp only [sharesUnbound, hv, Option.isSome_none, Bool.false_eq_true, if_false, Bool.or_eq_false_iff,
-          List.contains_eq_mem, decide_eq_false_iff_not] at h
+        simp only [sharesUnbound, hv, Option.isSome_none, Bool.false_eq_true, if_false, Bool.or_eq_false_iff] at h
         rw [combosChained]
         simp only [hv]
         have hstep : ∀ v, combosChained doms r (e.set i v) = combosIndependent doms (e.set i v) r := by
